@@ -14,29 +14,29 @@ Import ListNotations.
 Theorem read_iff_spec (P : prims) :
   crypto_laws P -> uuid_accepts_text P ->
   forall (t : json) (pw k : bytes),
-    v3_wellformed t = true -> unambiguous t = true -> nums_ok P t = true ->
+    v3_wellformed t = true -> unambiguous t = true -> nums_ok P t = true -> doc_alloc_ok t = true ->
     ((exists w, read_wallet_tree P t pw = Ok w /\ PrivateKey w = k) <-> v3_decrypt_gen false P t pw = Ok k).
 Proof.
-  intros L LU t pw k Hwf U N. split.
+  intros L LU t pw k Hwf U N Hcap. split.
   - intros (w & R & <-). apply (no_foreign_key_gen false P t pw w Hwf R). discriminate.
-  - intros D. destruct (read_is_standard P L LU false t pw k D U N) as (w & R & K & _).
+  - intros D. destruct (read_is_standard P L LU false t pw k D U N Hcap) as (w & R & K & _).
     exists w. split; assumption.
 Qed.
 
 Theorem read_err_iff_spec (P : prims) :
   crypto_laws P -> uuid_accepts_text P ->
   forall (t : json) (pw : bytes),
-    v3_wellformed t = true -> unambiguous t = true -> nums_ok P t = true ->
+    v3_wellformed t = true -> unambiguous t = true -> nums_ok P t = true -> doc_alloc_ok t = true ->
     ((exists e, read_wallet_tree P t pw = Err e) <-> (forall k, v3_decrypt_gen false P t pw <> Ok k)).
 Proof.
-  intros L LU t pw Hwf U N. split.
+  intros L LU t pw Hwf U N Hcap. split.
   - intros (e & R) k D.
-    destruct (proj2 (read_iff_spec P L LU t pw k Hwf U N) D) as (w & R' & _). congruence.
+    destruct (proj2 (read_iff_spec P L LU t pw k Hwf U N Hcap) D) as (w & R' & _). congruence.
   - intros H. destruct (read_wallet_tree P t pw) as [w | e |] eqn:R.
-    + exfalso. apply (H (PrivateKey w)). apply (proj1 (read_iff_spec P L LU t pw (PrivateKey w) Hwf U N)).
+    + exfalso. apply (H (PrivateKey w)). apply (proj1 (read_iff_spec P L LU t pw (PrivateKey w) Hwf U N Hcap)).
       exists w. split; [assumption | reflexivity].
     + exists e. reflexivity.
-    + exfalso. revert R. apply read_wallet_tree_total.
+    + exfalso. revert R. apply read_wallet_tree_total. apply wellformed_capped; assumption.
 Qed.
 
 (* non-vacuity: a file created by the model's NewWalletFileCustomBytesLight under the toy primitives (which
@@ -52,7 +52,7 @@ Example read_iff_spec_nonvacuous :
   crypto_laws toy /\ uuid_accepts_text toy /\
   match iff_doc with
   | Some t =>
-      v3_wellformed t = true /\ unambiguous t = true /\ nums_ok toy t = true /\
+      v3_wellformed t = true /\ unambiguous t = true /\ nums_ok toy t = true /\ doc_alloc_ok t = true /\
       v3_decrypt_gen false toy t [x70; x77] = Ok [x01; x02; x03] /\
       (match read_wallet_tree toy t [x70; x77] with Ok w => PrivateKey w | _ => [] end) = [x01; x02; x03] /\
       (match read_wallet_tree toy t [x70] with Err _ => true | _ => false end) = true /\
